@@ -1,4 +1,4 @@
 def run(ctx):
     from . import factorize_proofs
 
-    return factorize_proofs.run(ctx, ["range", "factorize"])
+    return factorize_proofs.run(ctx, ["range", "factorize", "convert"])
